@@ -76,6 +76,14 @@ def get_use_tree(
         if not only_list:
             merged_use_list = use_stmnt.only_list.copy()
             merged_rename = use_stmnt.rename_map.copy()
+            # Entities renamed by a USE statement without ONLY (USE mod, a => b)
+            for local_name, mod_name in rename_map.items():
+                if not merged_use_list or mod_name in merged_use_list:
+                    merged_rename[local_name] = use_stmnt.rename_map.get(
+                        mod_name, mod_name
+                    )
+                    if merged_use_list:
+                        merged_use_list.add(local_name)
         elif len(use_stmnt.only_list) == 0:
             merged_use_list = only_list.copy()
             merged_rename = rename_map.copy()
